@@ -379,6 +379,16 @@ func ThreadID() int {
 	return s.cur.id
 }
 
+// ThreadCount returns the number of controlled threads created so far (ids are 0..n-1 in
+// creation order).
+func ThreadCount() int {
+	s := current
+	if s == nil {
+		return 0
+	}
+	return len(s.threads)
+}
+
 // Choices returns the choice sequence actually taken.
 func (s *S) Choices() []int {
 	out := make([]int, len(s.Trace))
